@@ -82,7 +82,7 @@ def verify_variant(contract, variant_name, timeout_ms=10000, registry=None):
         file=src.file, lines=[src.first_line, src.last_line], samples=sh.sample_texts,
         inlined=sorted(getattr(sh, "inlined", ())), modular=sorted(getattr(sh, "modular", ())),
         tabulated=sorted(getattr(sh, "tabulated", ())), dropped=sorted(getattr(sh, "dropped", ())),
-        cover=sh.cover, feasible_exits=feasible_exits,
+        cover=sh.cover, feasible_exits=feasible_exits, assumed=sorted(getattr(sh, "assumed", ())),
     )
 
 
